@@ -82,15 +82,14 @@ class BaseDataDriftBatch(BaseDataDrift):
         return result, callbacks_logs
 
     def _check_compare_dimensions(self, X: np.ndarray) -> None:  # noqa: N803
-        try:
-            if self.X_ref.shape[1] != X.shape[1]:  # type: ignore
-                raise MismatchDimensionError(
-                    f"Dimensions of X_ref ({self.X_ref.shape[-1]}) "  # type: ignore
-                    f"and X ({X.shape[-1]}) must be equal"
-                )
-        except IndexError as e:
-            if self.X_ref.ndim != X.ndim:  # type: ignore
-                raise MismatchDimensionError(f"Dimensions of X ({X.ndim})") from e
+        if (
+            self.X_ref.ndim != X.ndim  # type: ignore
+            or self.X_ref.shape[1:] != X.shape[1:]  # type: ignore
+        ):
+            raise MismatchDimensionError(
+                f"Dimensions of X_ref ({self.X_ref.shape[1:]}) "  # type: ignore
+                f"and X ({X.shape[1:]}) must be equal"
+            )
 
     def _specific_checks(self, X: np.ndarray) -> None:  # noqa: N803
         self._check_compare_dimensions(X=X)
